@@ -310,6 +310,7 @@ def run(ctx):
     r = ctx.rule("R3b", "x86_64 interval assembler: write discipline, hazards, call helpers, callbacks, choice protocol", 26 + 27 + 2 + 10 + 26)
     ctx.guarded(r, AC.check_write_discipline, "interval")
     ctx.guarded(r, AC.check_hazards, "interval")
+    ctx.guarded(r, AC.check_load_imm, "interval")
     for n in ("call_fn_unary", "call_fn_binary"):
         ctx.guarded(r, AK.check_call_helper, "interval", n)
     ctx.guarded(r, lambda rule: J.r3_callbacks(rule, files=["fidget-jit/src/x86_64/interval.rs"]))
@@ -326,5 +327,5 @@ def run(ctx):
     ctx.guarded(r, r5_sibling_guards)
     from .. import wgslrules as WR
 
-    r = ctx.rule("R6", "the GPU (WGSL) interval operations are enclosures: bound selection, corner products / quotients, domain guards, choices", 25)
+    r = ctx.rule("R6", "the GPU (WGSL) interval operations are enclosures: bound selection, corner products / quotients, domain guards, choices", 27)
     ctx.guarded(r, WR.r_interval_ops)
